@@ -27,15 +27,20 @@ func (C19) Describe() CheckInfo {
 	}
 }
 
-var c19Variants = []string{"read-fault", "write-fault", "devfull", "open-fault", "decode-fail", "eval-fail", "complete", "exit-status", "null-input", "auto-format", "encoder-domain", "nul-output", "malformed", "usage", "from-file"}
+var c19Variants = []string{"read-fault", "write-fault", "devfull", "open-fault", "decode-fail", "eval-fail", "complete", "exit-status", "null-input", "auto-format", "encoder-domain", "nul-output", "malformed", "usage", "from-file", "split-output", "root-command"}
 
 var badYAML = []string{"a: [1, 2\n", "\tx: 1\n", "a: b: c\n", "a: \"unterminated\n", "- x\ny: 1\n", "a: *nope\n", "{a: 1\n", "a: 1\n  b: 2\n c: 3\n", "a: !!int notanint\nb: [\n"}
 
 func (C19) Generate(c *Ctx, r *Rand, index int) *Scenario {
 	sc := &Scenario{Kind: "proc", Meta: map[string]any{}}
 	rs := r.Fork("shape")
-	variant := c19Variants[rs.Weighted([]int{16, 14, 3, 12, 9, 8, 8, 10, 4, 6, 5, 5, 10, 4, 4})]
+	variant := c19Variants[rs.Weighted([]int{16, 14, 3, 12, 9, 8, 8, 10, 4, 6, 5, 5, 10, 4, 4, 4, 4})]
 	sc.Meta["variant"] = variant
+	if variant == "split-output" {
+		ss := GenSplitScenario(r, "C19")
+		ss.Meta["variant"] = "split-output"
+		return ss
+	}
 	evalAll := rs.Chance(1, 4)
 	format := "yaml"
 	if rs.Chance(1, 6) {
@@ -358,6 +363,36 @@ func (C19) Generate(c *Ctx, r *Rand, index int) *Scenario {
 		sc.Meta["expr"] = "."
 		sc.Meta["freeze_data"] = true
 		sc.Meta["keep_flags"] = []any{"-i", "-s", "-n", "ea", "--nope", "-o=foo", "-p=foo", "--front-matter=process", "--from-file=missing.yq", "-I", "--split-exp-file=missing.yq", "--xml-attribute-prefix", "--csv-separator=ab", "-o=sh", "-p=shell", "-I-2"}
+	case "root-command":
+		// flags only, input on stdin: the root command itself evaluates `.`
+		g := &DocGen{R: r.Fork("doc"), Plain: true}
+		doc := g.Doc(DocID(r, 0, 0)).YAML()
+		kind := Pick(rs, []string{"ok", "ok", "encoder-domain", "bad-input", "e-false"})
+		argv = nil
+		switch kind {
+		case "ok":
+			argv = Pick(rs, [][]string{{"-o=json", "-I0"}, {"-P"}, {"-o=props"}, {"-o=json"}, {"-N"}})
+		case "encoder-domain":
+			doc = "- 1\n- {a: 2}\n"
+			argv = Pick(rs, [][]string{{"-o=xml"}, {"-o=csv"}, {"-o=base64"}, {"-o=toml"}})
+		case "bad-input":
+			doc = Pick(rs, badYAML)
+			argv = Pick(rs, [][]string{{"-P"}, {"-o=json"}, {"-N"}, {"-e"}})
+		case "e-false":
+			doc = Pick(rs, []string{"false\n", "null\n", "~\n"})
+			argv = []string{"-e"}
+		}
+		sc.Files = []File{{Name: "-", Docs: []string{doc}, Mode: 0644}}
+		sc.Argv = argv
+		sc.Meta["root_kind"] = kind
+		sc.Meta["expr"] = "."
+		sc.Meta["format"] = "yaml"
+		sc.Meta["freeze_data"] = true
+		keep := []any{}
+		for _, a := range argv {
+			keep = append(keep, a)
+		}
+		sc.Meta["keep_flags"] = keep
 	case "from-file":
 		// the expression given in a file must behave like the same expression on the command line
 		sc.Files = GenMultiFiles(r.Fork("files"), opts)
@@ -539,6 +574,43 @@ func (C19) Judge(c *Ctx, sc *Scenario) []Violation {
 		return ok
 	}
 	flags, names := c19Split(sc)
+	if variant == "split-output" {
+		problems, nt := JudgeSplit(c, sc)
+		nontrivial = nt
+		if nt && !c.Quiet {
+			c.Count("probe.split_files_compared_with_per_document_runs")
+		}
+		for _, p := range problems {
+			add("O19.10", "split "+p[0], p[1])
+		}
+		return vs
+	}
+	if variant == "root-command" {
+		nontrivial = true
+		kind := sc.MetaString("root_kind")
+		if sc.File("-") == nil {
+			return vs
+		}
+		// the same evaluation through the eval sub-command is the reference for the status
+		ref := c.Ref(append(append([]string{}, sc.Argv...), ".", "-"), sc.Files, sc.Stdin)
+		if (ref.Exit == 0) != (out.Exit == 0) {
+			add("O19.11", fmt.Sprintf("root exit=%d eval exit=%d kind=%s", out.Exit, ref.Exit, kind), fmt.Sprintf("the root command (flags only, input on stdin) exits %d, `yq <flags> . -` exits %d", out.Exit, ref.Exit))
+		}
+		if out.Exit != 0 {
+			if len(bytes.TrimSpace(out.Stderr)) == 0 {
+				add("O19.11", "silent kind="+kind, fmt.Sprintf("exit %d but nothing on stderr; stdout=%q", out.Exit, clip(out.Stdout, 200)))
+			}
+			if bytes.Contains(out.Stdout, []byte("Error:")) {
+				add("O19.11", "message-on-stdout kind="+kind, fmt.Sprintf("the error message went to stdout, among the results: %q", clip(out.Stdout, 200)))
+			}
+		} else if !bytes.Equal(out.Stdout, ref.Stdout) {
+			add("O19.11", "stdout kind="+kind, fmt.Sprintf("root command prints %q, `yq <flags> . -` prints %q", clip(out.Stdout, 200), clip(ref.Stdout, 200)))
+		}
+		if !c.Quiet {
+			c.Count("probe.root_command_" + kind)
+		}
+		return vs
+	}
 	if len(names) == 0 && variant != "null-input" && variant != "usage" && variant != "from-file" {
 		return vs // degenerate (the shrinker removed every input): nothing is claimed
 	}
